@@ -221,6 +221,11 @@ def run_integral(case, res):
     n = len(U) - p - 1
     env.reset_memo()
     vectors = list(al.unit_vectors(n)) + [al.generic_points(n)]
+    # float and int-knot curves on numerically equal knots are integrated FIRST: the exact integrals below must not depend
+    # on what was computed before for another number type (value-keyed tables)
+    for rep in ("float", "int"):
+        res.transition()
+        lib.outcome(lib.Integrate.scalar, lib.mk_curve(U, vectors[-1], None, rep))
     for P in vectors:
         res.state((U, tuple(P)))
         expect = sum(P[i] * (U[i + p + 1] - U[i]) / (p + 1) for i in range(n))
